@@ -6,6 +6,7 @@ import (
 	"os"
 	"regexp"
 	"sync"
+	"unicode/utf8"
 
 	"github.com/reeflective/readline/inputrc"
 	"github.com/reeflective/readline/internal/strutil"
@@ -221,12 +222,27 @@ func (k *Keys) ReadKey() (key rune, isAbort bool) {
 		key = k.macroKeys[0]
 		k.macroKeys = k.macroKeys[1:]
 
+	case len(k.buf) > 0:
+		// Keys that arrived together with the command's own
+		// keys (type-ahead, paste) are already in the stack.
+		var size int
+		key, size = utf8.DecodeRune(k.buf)
+		k.buf = k.buf[size:]
+
 	case k.waiting:
 		buf := <-k.keysOnce
 		key = []rune(string(buf))[0]
 	default:
 		buf, _ := k.readInputFiltered()
-		key = []rune(string(buf))[0]
+		if len(buf) == 0 {
+			// The input ended: abort the command.
+			return 0, true
+		}
+
+		// Use the first key, keep the others for later.
+		var size int
+		key, size = utf8.DecodeRune(buf)
+		k.buf = append(k.buf, buf[size:]...)
 	}
 
 	// Always mark those keys as matched, so that
